@@ -159,54 +159,28 @@ func websocketFacts(p *pkgInfo, out *bytes.Buffer) error {
 }
 
 func websocketFactsCloseCodes(p *pkgInfo, w *bytes.Buffer) error {
-	// ---- validReceivedCloseCodes ----
-	var lit *ast.CompositeLit
-	for _, f := range p.files {
-		for _, d := range f.Decls {
-			gd, ok := d.(*ast.GenDecl)
-			if !ok || gd.Tok != token.VAR {
-				continue
-			}
-			for _, sp := range gd.Specs {
-				vs := sp.(*ast.ValueSpec)
-				for i, id := range vs.Names {
-					if id.Name == "validReceivedCloseCodes" && i < len(vs.Values) {
-						lit, _ = vs.Values[i].(*ast.CompositeLit)
-					}
-				}
-			}
-		}
-	}
-	if lit == nil {
-		return fmt.Errorf("var validReceivedCloseCodes = map[int]bool{…} not found")
-	}
-	type kv struct {
-		k string
-		v string
-	}
-	var kvs []kv
-	for _, e := range lit.Elts {
-		ke, ok := e.(*ast.KeyValueExpr)
-		if !ok {
-			return fmt.Errorf("validReceivedCloseCodes: element is not key: value")
-		}
-		k, _, ok1 := p.constOf(ke.Key)
-		v, ty, ok2 := p.constOf(ke.Value)
-		if !ok1 || !ok2 || ty != "Bool" {
-			return fmt.Errorf("validReceivedCloseCodes: non-constant entry")
-		}
-		kvs = append(kvs, kv{k, v})
-	}
-	sort.Slice(kvs, func(i, j int) bool { return len(kvs[i].k) < len(kvs[j].k) || (len(kvs[i].k) == len(kvs[j].k) && kvs[i].k < kvs[j].k) })
-	fmt.Fprintf(w, "/-- Go `var validReceivedCloseCodes = map[int]bool{…}` (%d entries; a missing key reads as false). -/\ndef validReceivedCloseCodes (code : Nat) : Bool :=\n", len(kvs))
-	for _, e := range kvs {
-		fmt.Fprintf(w, "  if code = %s then %s else\n", e.k, e.v)
-	}
-	fmt.Fprintf(w, "  false\n")
-	// isValidReceivedCloseCode's private range
-	if fd := p.funcDecl("", "isValidReceivedCloseCode"); fd == nil {
+	// isValidReceivedCloseCode is EVALUATED for every 16-bit status code (the wire carries two bytes): whether it
+	// is a map, a switch or range comparisons, the generated definition is the set of codes it accepts.
+	fd := p.funcDecl("", "isValidReceivedCloseCode")
+	if fd == nil {
 		return fmt.Errorf("func isValidReceivedCloseCode not found")
 	}
+	runs, why := p.evalBoolRanges(fd, 0, 65535)
+	if why != "" {
+		return fmt.Errorf("isValidReceivedCloseCode: %s", why)
+	}
+	var parts []string
+	for _, r := range runs {
+		if r[0] == r[1] {
+			parts = append(parts, fmt.Sprintf("code == %d", r[0]))
+		} else {
+			parts = append(parts, fmt.Sprintf("(%d ≤ code && code ≤ %d)", r[0], r[1]))
+		}
+	}
+	if len(parts) == 0 {
+		parts = []string{"false"}
+	}
+	fmt.Fprintf(w, "/-- Go `func isValidReceivedCloseCode(code int) bool`, EVALUATED for every code 0..65535: the maximal runs of\naccepted codes (%d runs). -/\ndef closeCodeAccepted (code : Nat) : Bool :=\n  %s\n", len(runs), strings.Join(parts, " ||\n  "))
 	return nil
 }
 
